@@ -21,6 +21,7 @@ from .builtins_model import builtin_class
 from .engine import EngineBase
 from .engine_expr import ExprMixin
 from .engine_call import CallMixin
+from .engine_inspect import InspectMixin
 from .engine_stmt import StmtMixin
 from .engine_builtins import BuiltinsMixin
 from .engine_quant import QuantMixin
@@ -66,7 +67,7 @@ class FuncResult:
         return [o for o in self.obligations if o.verdict == 'unknown']
 
 
-class Verifier(QuantMixin, LoopMixin, ExprMixin, CallMixin, StmtMixin, BuiltinsMixin, EngineBase):
+class Verifier(InspectMixin, QuantMixin, LoopMixin, ExprMixin, CallMixin, StmtMixin, BuiltinsMixin, EngineBase):
     def __init__(self, index: Index, contracts: Dict[str, Contract]):
         super().__init__(index)
         self.contracts = contracts
@@ -1148,6 +1149,9 @@ class Verifier(QuantMixin, LoopMixin, ExprMixin, CallMixin, StmtMixin, BuiltinsM
         if ct.result_fresh and ct.result_type:
             K = self.resolve_class(ct.result_type.lstrip('='))
             res = self.alloc_havoc(K)
+            for an, cn in (ct.extra.get('result_fresh_attrs') or {}).items():
+                # an attribute of the new object that is itself a new object (owned by the result)
+                self.set_attr_raw(res, an, self.alloc_havoc(self.resolve_class(cn)))
         else:
             res = self.fresh('res')
             if ct.result_type:
@@ -1187,6 +1191,17 @@ class Verifier(QuantMixin, LoopMixin, ExprMixin, CallMixin, StmtMixin, BuiltinsM
 
     def alloc_havoc(self, K: ClassInfo):
         o = self.alloc(K)
+        if K.builtin and K.name in ('dict', 'set', 'defaultdict'):
+            # a new container with unknown contents
+            r = smt.simp(Val.r(o))
+            self.st.dct = z3.Store(self.st.dct, r, self.fresh('hv_dict', smt.DictV))
+            n = self.fresh('hv_dlen', smt.I)
+            self._add_axiom(n >= 0)
+            self.st.dlen = z3.Store(self.st.dlen, r, n)
+            return o
+        if K.builtin and K.name in ('list', 'tuple'):
+            self.st.seq = z3.Store(self.st.seq, smt.simp(Val.r(o)), self.fresh('hv_seq', smt.SeqV))
+            return o
         for a in sorted(self.declared_attrs(K)):
             v = self.fresh(f'h_{a}')
             self.bound_ref(v)
@@ -1507,6 +1522,14 @@ class Verifier(QuantMixin, LoopMixin, ExprMixin, CallMixin, StmtMixin, BuiltinsM
         if ct.result_type:
             self.oblige('result_type', f'result : {ct.result_type}', self.type_formula(result, ct.result_type),
                         ct.props_of('result_type'))
+        if ct.result_fresh:
+            self.oblige('result_fresh', 'the result is an object allocated by this call',
+                        z3.And(Val.is_ref(result), Val.r(result) >= smt.FRESH_BASE), ct.props_of('result_fresh'))
+            for an, cn in (ct.extra.get('result_fresh_attrs') or {}).items():
+                av = smt.simp(z3.Select(self.attr_array(an), Val.r(result)))
+                self.oblige('result_fresh', f'result.{an} is a {cn} allocated by this call, distinct from the result',
+                            z3.And(Val.is_ref(av), Val.r(av) >= smt.FRESH_BASE, av != result,
+                                   self.type_formula(av, '=' + cn)), ct.props_of('result_fresh'))
         for cl in ct.ensures:
             if cl.name in skip:
                 continue
